@@ -327,6 +327,12 @@ func (x *Exec) eval(e ast.Expr, st *State, sp *SpecCtx) Value {
 	case *ast.SelectorExpr, *ast.IndexExpr, *ast.StarExpr:
 		if sel, ok := e.(*ast.SelectorExpr); ok && sp != nil {
 			if id, ok := sel.X.(*ast.Ident); ok {
+				// field of a spec-bound struct value (e.g. the struct key of a quantified map key)
+				if bvv, isB := sp.bound[id.Name]; isB && bvv.Fields != nil && bvv.Ptr == nil {
+					if fv, has := bvv.Fields[sel.Sel.Name]; has {
+						return fv
+					}
+				}
 				if _, shadowed := sp.bound[id.Name]; !shadowed {
 					if pn, ok := x.lookupObj(id, sp).(*types.PkgName); ok {
 						if c, ok := pn.Imported().Scope().Lookup(sel.Sel.Name).(*types.Const); ok {
